@@ -291,6 +291,107 @@ theorem c07_frame_from_load (expCols mcCols : List (Name × Col)) (gops : List G
   obtain ⟨h1, h2, _⟩ := c07_frame g0 _ good hr gops hh
   exact ⟨h1, h2⟩
 
+/-! ### scrambling -/
+
+namespace C07
+
+theorem lookup_setItemCol (m : Nat) (col : Col) (n : Nat) (hn : n ≠ m) : ∀ (cols : List (Name × Col)),
+    ((cols.map (setItemCol m col)).map (fun e => (e.1, e.2.2))).lookup n = cols.lookup n := by
+  intro cols
+  induction cols with
+  | nil => rfl
+  | cons p cols ih =>
+    obtain ⟨k, c⟩ := p
+    by_cases hk : (k == m) = true
+    · have hkm : k = m := by simpa using hk
+      have h1 : setItemCol m col (k, c) = (k, Prov.fresh, col) := by simp [setItemCol, hk]
+      have : (n == k) = false := by rw [beq_eq_false_iff_ne]; rw [hkm]; exact hn
+      simp only [List.map_cons, h1, List.lookup, this]
+      exact ih
+    · have h1 : setItemCol m col (k, c) = (k, Prov.kept k, c) := by simp [setItemCol, hk]
+      simp only [List.map_cons, h1, List.lookup]
+      cases (n == k)
+      · exact ih
+      · rfl
+
+theorem lookup_addField (m : Nat) (col : Col) (n : Nat) (hn : n ≠ m) : ∀ (cols : List (Name × Col)),
+    ((keepAll cols ++ [(m, Prov.fresh, col)]).map (fun e => (e.1, e.2.2))).lookup n = cols.lookup n := by
+  intro cols
+  induction cols with
+  | nil =>
+    have : (n == m) = false := by rw [beq_eq_false_iff_ne]; exact hn
+    simp [keepAll, List.lookup, this]
+  | cons p cols ih =>
+    obtain ⟨k, c⟩ := p
+    simp only [keepAll, List.map_cons, List.cons_append, List.lookup] at ih ⊢
+    split
+    · rfl
+    · exact ih
+
+/-- `x[m] = col` on table `c`: the length and every other field stay (also when the assignment raises) -/
+theorem setItem_step (ts : List Table) (c m : Nat) (col : Col) (t1 : Table) (h : ts[c]? = some t1) :
+    (stepT ts (.setItem c m col)).1.length = ts.length ∧
+    ∃ t2, (stepT ts (.setItem c m col)).1[c]? = some t2 ∧ t2.len = t1.len ∧
+      ∀ n, n ≠ m → t2.cols.lookup n = t1.cols.lookup n := by
+  have hg : getT ts c = .ok t1 := by simp [getT, h]
+  have hc : c < ts.length := (List.getElem?_eq_some_iff.mp h).1
+  unfold stepT
+  simp only [tableOp, hg, bind, Except.bind]
+  split_ifs with h1 h2 h3
+  · exact ⟨rfl, t1, h, rfl, fun _ _ => rfl⟩
+  · refine ⟨by simp [pure, Except.pure], ?_⟩
+    simp only [pure, Except.pure, List.getElem?_set_self hc]
+    exact ⟨_, rfl, rfl, fun n hn => lookup_setItemCol m col n hn t1.cols⟩
+  · exact ⟨rfl, t1, h, rfl, fun _ _ => rfl⟩
+  · refine ⟨by simp [pure, Except.pure], ?_⟩
+    simp only [pure, Except.pure, List.getElem?_set_self hc]
+    exact ⟨_, rfl, rfl, fun n hn => lookup_addField m col n hn t1.cols⟩
+
+theorem setItems_run : ∀ (sets : List (Name × Col)) (ts : List Table) (c : Nat) (t1 : Table), ts[c]? = some t1 →
+    ∃ t2, (runT ts (setItems c sets))[c]? = some t2 ∧ t2.len = t1.len ∧
+      ∀ n, n ∉ sets.map (·.1) → t2.cols.lookup n = t1.cols.lookup n := by
+  intro sets
+  induction sets with
+  | nil => intro ts c t1 h; exact ⟨t1, h, rfl, fun _ _ => rfl⟩
+  | cons p sets ih =>
+    intro ts c t1 h
+    obtain ⟨_, t2, h2, l2, k2⟩ := setItem_step ts c p.1 p.2 t1 h
+    obtain ⟨t3, h3, l3, k3⟩ := ih _ c t2 h2
+    refine ⟨t3, h3, by rw [l3, l2], ?_⟩
+    intro n hn
+    simp only [List.map_cons, List.mem_cons, not_or] at hn
+    rw [k3 n hn.2, k2 n hn.1]
+
+end C07
+
+/-- **Scrambling changes only the documented fields and keeps the number of events.**  `scramble_data(data.exp,
+copy=True)` = `data.exp.copy()` followed by the assignments `data[f] = …` of the scrambling method: the generated
+container has the length of the stored one and every field that is not assigned is the stored column (dtype and
+values) — whatever the assigned arrays are. -/
+theorem c07_scramble_only_documented_fields (ts : List Table) (e : Nat) (t : Table) (sets : List (Name × Col))
+    (h : ts[e]? = some t) (hne : t.cols ≠ []) :
+    ∃ t', (runT ts ([.copy e none] ++ setItems ts.length sets))[ts.length]? = some t' ∧ t'.len = t.len ∧
+      ∀ n, n ∉ sets.map (·.1) → t'.cols.lookup n = t.cols.lookup n := by
+  have hg : getT ts e = .ok t := by simp [getT, h]
+  have hcopy : (stepT ts (.copy e none)).1 = ts ++ [⟨t.len, t.cols⟩] := by
+    unfold stepT
+    simp only [tableOp, hg, bind, Except.bind, pure, Except.pure, copyCols]
+    have : t.cols.isEmpty = false := by cases hc : t.cols with
+      | nil => exact (hne hc).elim
+      | cons _ _ => rfl
+    simp [Upd.table, freshAll_table, this]
+  simp only [List.cons_append, List.nil_append, runT, hcopy]
+  have hl : (ts ++ [(⟨t.len, t.cols⟩ : Table)])[ts.length]? = some ⟨t.len, t.cols⟩ := by simp
+  obtain ⟨t2, h2, l2, k2⟩ := C07.setItems_run sets _ ts.length _ hl
+  exact ⟨t2, h2, l2, k2⟩
+
+/-- the length is kept (separate name for the design's list) -/
+theorem c07_scramble_len (ts : List Table) (e : Nat) (t : Table) (sets : List (Name × Col))
+    (h : ts[e]? = some t) (hne : t.cols ≠ []) :
+    ∃ t', (runT ts ([.copy e none] ++ setItems ts.length sets))[ts.length]? = some t' ∧ t'.len = t.len := by
+  obtain ⟨t', h1, h2, _⟩ := c07_scramble_only_documented_fields ts e t sets h hne
+  exact ⟨t', h1, h2⟩
+
 /-! ### the code before the fix: `unblind` adopting `data.exp` itself -/
 
 namespace C07
